@@ -67,6 +67,9 @@ type Machine struct {
 	cellSeq  int
 	depth    int
 
+	// OnStore, when set, observes every store performed by interpreted code (cell written, position).
+	OnStore func(c *Cell, pos token.Pos, fn *ssa.Function)
+
 	TypeArgs map[string]types.Type // type parameter name -> type argument (for generic bodies)
 	Events   []Event
 	User     any // driver-specific state (reset by the driver per path)
@@ -81,6 +84,9 @@ type Machine struct {
 func NewMachine(prog *ssa.Program) *Machine {
 	return &Machine{Prog: prog, MaxSteps: 400000, rcKeys: map[string]bool{}, Interned: map[string]sym.Expr{}}
 }
+
+// CellSeq returns the id of the most recently allocated cell (cells allocated later have larger ids).
+func (m *Machine) CellSeq() int { return m.cellSeq }
 
 func (m *Machine) FreshSym(prefix string) string {
 	m.symSeq++
@@ -594,6 +600,9 @@ func (m *Machine) execBlock(fr *frame, b *ssa.BasicBlock, prev *ssa.BasicBlock) 
 			p, ok := addr.(PtrV)
 			if !ok {
 				m.progPanic(fr, x.Pos(), "nil pointer dereference (store)")
+			}
+			if m.OnStore != nil {
+				m.OnStore(p.C, x.Pos(), fr.fn)
 			}
 			storeCell(p.C, m.get(fr, x.Val))
 		case *ssa.MapUpdate:
